@@ -417,7 +417,11 @@ func c19Plan(quick bool) *FuncPlan {
 func init() {
 	Registry["C19"] = func(c *Ctx) int {
 		p := c19Plan(c.Quick())
+		ep := c19SharedPlan()
 		if c.Worker >= 0 {
+			if c.Scen == ep.Name {
+				return ep.Worker(c)
+			}
 			return p.Worker(c)
 		}
 		if len(c.Args) == 2 && c.Args[0] == "--replay" {
@@ -427,7 +431,15 @@ func init() {
 		if res.EngineErr != "" {
 			return EngineError("%s", res.EngineErr)
 		}
+		sum := &EnumSummary{}
+		ep.Master(c, sum)
+		if sum.EngineErr != "" {
+			return EngineError("%s", sum.EngineErr)
+		}
+		c.ReportKnown(sum.KnownHits)
+		res.Violations += sum.Violations
 		cov := p.Coverage(res, "deviation-bounded DFS over schedules of 2-3 goroutines using the real (instrumented) Go client over the in-memory network against a full node: choice points are network reads/writes/accepts, explicit yields between enter and leave, and every blocking; oracle on definitely-held intervals (acquire returned ... release called); non-trivial = at least two parties entered", c.Quick())
+		cov["enumerations"] = sum.Coverage("every legitimate history (no reader inside longer than two ticks of 1.7 s, read-lock expiry 5 s) of enter / leave (oldest, newest, middle) / tick / writer-try-lock events on ONE shared client.RWLock object, quick: length <= 8, <= 2 readers inside, writer last; thorough: length <= 10, <= 3 readers, writer anywhere; oracle: every call succeeds and the writer is admitted exactly when no reader is inside")
 		c.WriteEvidence("exploration", cov, []string{"coarse scheduling: handlers between network operations are atomic", "2-3 goroutines, n in {1,2}; 64-goroutine stress with random hold times is sampling and not claimed", "leader only in this check (the follower forwarding port is covered by C10)"}, res.Violations)
 		fmt.Printf("C19 %s: %d executions, %d distinct traces, %d violations\n", c.Tier, res.Total.Executions, len(res.Total.Traces), res.Violations)
 		if res.Violations > 0 {
